@@ -40,7 +40,8 @@ SOURCES = [
     "corpus examples /repo/iodata/test/data/water_com.com, water_multi*.com (real input files)",
 ]
 CLASSES = ["small", "charge_multiplicity", "link0", "multiline_route", "multiline_title", "trailing_sections", "negative_wide", "atomic_numbers",
-           "upper_symbols", "label_suffix", "atom_params", "comma_separated", "freeze_code", "comments", "everything"]
+           "upper_symbols", "label_suffix", "atom_params", "comma_separated", "freeze_code", "comments", "everything",
+           "units_keyword_angstrom"]
 
 
 class _Words:
@@ -107,6 +108,12 @@ def generate(rng, klass):
         m["freeze"] = [int(v) for v in rng.choice([0, -1], size=natom)]
     if klass == "comments":
         m["comments"] = True
+    if klass == "units_keyword_angstrom":
+        # the Units keyword naming the default explicitly (angstrom, degrees), next to method / basis names containing "au", "bohr"
+        m["route"] = [["#P Units=(Ang,Deg) MP2/aug-cc-pVDZ", "#P Units=Ang BLYP/def2SVP/Auto", "#N Units(Ang) HF/aug-cc-pVTZ SCF=Tight",
+                       "#P PBE1PBE/Gen Units=Angstrom Pseudo=Read Guess=Read SCF=(MaxCycle=200,XQC) Opt=CalcFC Int=Ultrafine Geom=Gauche"][int(rng.integers(4))]]
+        if rng.integers(2):
+            m["route"].append("  Geom=NoCrowd Gauss=bohr_like_keyword_free_text"[: 14])
     m["features"] = [klass, f"natom={natom}", f"nroute={len(m['route'])}", f"ntitle={len(m['title'])}", f"nlink0={len(m['link0'])}",
                      f"ntrail={len(m['trailing'])}"]
     return m
